@@ -431,6 +431,9 @@ func (w *vWorld) buildRequest(q vReq) *http.Request {
 	if req.Body == nil {
 		req.Body = http.NoBody // what a server-side request carries when there is no body (never nil)
 	}
+	// a request as the SERVER sees it: the request line carries path and query only (origin-form), scheme and host are
+	// not part of r.URL
+	req.URL.Scheme, req.URL.Host = "", ""
 	req.RequestURI = target
 	req.Host = vHost
 	if q.Host != "" {
